@@ -1205,12 +1205,15 @@ theorem runLoop_grew (hE : ExecLaw exec txsOf) (main : Bool) (fuel : Nat) :
             obtain ⟨a, b⟩ := hT1 hmain
             exact ⟨by show N1.byNo N1.latest = some o.parent; rw [a, hop], by show o.no = N1.latest + 1; omega⟩
 
-theorem puts_def (out : List Msg) : True := trivial
-
 /-- The transactions sent back to the pool among a list of messages. -/
 def putsOf (out : List Msg) : List Nat := out.filterMap (fun m => match m with | .put t => some t | _ => none)
 
 theorem putsOf_append (a b : List Msg) : putsOf (a ++ b) = putsOf a ++ putsOf b := by simp [putsOf]
+
+theorem putsOf_map_put (l : List Nat) : putsOf (l.map Msg.put) = l := by
+  induction l with
+  | nil => rfl
+  | cons a l ih => simp only [List.map_cons, putsOf, List.filterMap_cons] at ih ⊢; rw [ih]
 
 theorem rollforward_puts : ∀ (l : List Block) (N N2 : Node) (ok : Bool), rollforward exec N l = (ok, N2) →
     putsOf N2.out = putsOf N.out := by
@@ -1275,10 +1278,8 @@ theorem reorg_done (hU : UKeyed U) {N N' : Node} (h : Inv exec txsOf U g N) {top
         unfold swapChain at hr
         simp only [if_neg hnge] at hr
         injection hr with _ hr; subst hr
-        refine ⟨gt, rfl, gs, by omega, hea, fun x hx => hcons _ _ _ hrf x (List.mem_reverse.mpr hx), rfl, rfl, hroot2, ?_⟩
-        simp only [putsOf_append, hputs]
-        congr 1
-        simp [putsOf]
+        refine ⟨gt, hg, gs, by omega, hea, fun x hx => hcons _ _ _ hrf x (List.mem_reverse.mpr hx), rfl, rfl, hroot2, ?_⟩
+        simp only [putsOf_append, hputs, putsOf_map_put]
 
 /-- A reorganisation that is not carried out (no branch root, vetoed below the last irreversible block, an invalid
 block on the new branch) leaves the tip, the height index, the tx index and the state root where they were and
@@ -1320,7 +1321,6 @@ theorem reorg_complete {N : Node} {top : Block} {gt : Gather} (hg : gather N top
   rw [if_neg this]
   obtain ⟨N2, hN2⟩ := rollforward_complete (exec := exec) gt.newB.reverse { N with sdbRoot := gt.brStart.claimed } gt.brStart rfl hea
     (fun x hx => hc x (List.mem_reverse.mp hx))
-  dsimp only
   rw [hN2]
   obtain ⟨_, _, f3, _⟩ := rollforward_frame _ _ _ _ hN2
   have hnge : ¬ (N2.latest ≥ top.no) := by rw [f3]; show ¬ (N.latest ≥ top.no); omega
@@ -1339,11 +1339,11 @@ theorem reorg_grew {N : Node} (top : Block) : Grew N (Aergo.Chain.reorg exec N t
         exact Or.inl ⟨f4, f3⟩
       · next N2 hrf =>
         obtain ⟨_, _, f3, f4, _⟩ := rollforward_frame _ _ _ _ hrf
-        unfold swapChain
-        dsimp only
-        split
-        · exact Or.inl ⟨f4, f3⟩
-        · next hnge => exact Or.inr (by show N.latest < top.no; have : N2.latest = N.latest := f3; omega)
+        by_cases hc : N2.latest ≥ top.no
+        · simp only [swapChain, if_pos hc]
+          exact Or.inl ⟨f4, f3⟩
+        · simp only [swapChain, if_neg hc]
+          exact Or.inr (by show N.latest < top.no; have : N2.latest = N.latest := f3; omega)
 
 /-- **The tip is never displaced by anything that is not strictly higher**: after any arrival the best block is the
 same block as before, or the best height grew. -/
@@ -1427,6 +1427,152 @@ theorem addBlock_grew (hE : ExecLaw exec txsOf) {N : Node} (h : Inv exec txsOf U
                     · exact hg0.trans (hrl.trans hr)
                     · exact cb N2 (hrl.trans hr)
                   · exact hg0.trans hrl
+
+/-! ### `gather` finds every stored branch that leaves the main chain below the tip -/
+
+/-- `d` (highest first) is a parent-linked chain of consecutive heights ending right above `S`. -/
+def DescTo (S : Block) : List Block → Prop
+  | [] => False
+  | [x] => x.parent = S.id ∧ x.no = S.no + 1
+  | x :: y :: r => x.parent = y.id ∧ x.no = y.no + 1 ∧ DescTo S (y :: r)
+
+theorem descTo_snoc (S x : Block) (hx : x.parent = S.id ∧ x.no = S.no + 1) :
+    ∀ d : List Block, (d ≠ [] → DescTo x d) → DescTo S (d ++ [x]) := by
+  intro d
+  induction d with
+  | nil => intro _; exact hx
+  | cons a d ih =>
+    intro hd
+    have had := hd (by simp)
+    cases d with
+    | nil => exact ⟨had.1, had.2, hx⟩
+    | cons b r => exact ⟨had.1, had.2.1, ih (fun _ => had.2.2)⟩
+
+theorem asc_reverse_descTo : ∀ (l : List Block) (S : Block), Asc S l → l ≠ [] → DescTo S l.reverse := by
+  intro l
+  induction l with
+  | nil => intro S _ h; exact absurd rfl h
+  | cons x l ih =>
+    intro S ha _
+    obtain ⟨hp, hn, ha'⟩ := ha
+    rw [List.reverse_cons]
+    exact descTo_snoc S x ⟨hp, hn⟩ l.reverse (fun hne => ih x ha' (by intro hc; subst hc; exact hne rfl))
+
+theorem gatherLoop_total {N : Node} (h : Inv exec txsOf U g N) {S : Block} (hS : onMain N S)
+    (hSlt : S.no < N.latest) :
+    ∀ (d : List Block), DescTo S d → (∀ x ∈ d, N.blocks x.id = some x ∧ ¬ onMain N x) →
+    ∀ (fuel : Nat) (old new : List Block) (br : Block), d.head? = some br → d.length + 1 ≤ fuel →
+      ∃ old', gatherLoop N fuel br old new = some ⟨S, new ++ d, old'⟩ := by
+  have byNo_main : ∀ k, k ≤ N.latest → ∃ c, onMain N c ∧ c.no = k ∧ blockByNo N k = some c := by
+    intro k hk
+    obtain ⟨c, hc, hcn, _⟩ := h.chain k hk
+    exact ⟨c, hc, hcn, by unfold blockByNo; rw [← hcn, hc.1]; exact hc.2⟩
+  -- the last step: at the branch root
+  have atRoot : ∀ (fuel : Nat) (old new : List Block), old ≠ [] → new ≠ [] →
+      gatherLoop N (fuel + 1) S old new = some ⟨S, new, old⟩ := by
+    intro fuel old new ho hn
+    obtain ⟨c, hc, hcn, hbn⟩ := byNo_main S.no (by omega)
+    have : c = S := onMain_inj hc hS hcn
+    subst this
+    simp only [gatherLoop]
+    rw [if_pos (by omega : c.no ≤ N.latest), hbn]
+    simp only [if_true]
+    rw [if_neg (by omega : ¬ N.latest = c.no)]
+    have : (new.isEmpty || old.isEmpty) = false := by
+      cases new <;> cases old <;> simp_all
+    simp [this]
+  -- one step down from a block that is not on the main chain
+  have stepDown : ∀ (fuel : Nat) (old new : List Block) (x p : Block), N.blocks x.id = some x → ¬ onMain N x →
+      N.blocks x.parent = some p → x.no = p.no + 1 →
+      ∃ old', (old' ≠ [] ∨ N.latest < x.no) ∧ (x.no ≤ N.latest → old' ≠ []) ∧
+        gatherLoop N (fuel + 1) x old new = gatherLoop N fuel p old' (new ++ [x]) := by
+    intro fuel old new x p hx hnm hp hno
+    simp only [gatherLoop]
+    have hx0 : ¬ (x.no = 0) := by omega
+    have hpn : ¬ (x.no - 1 ≠ p.no) := by omega
+    by_cases hle : x.no ≤ N.latest
+    · obtain ⟨c, hc, hcn, hbn⟩ := byNo_main x.no hle
+      have hid : ¬ (x.id = c.id) := by
+        intro hid
+        have := hc.2; rw [← hid, hx] at this; injection this with this
+        subst this; exact hnm hc
+      refine ⟨old ++ [c], Or.inl (by simp), fun _ => by simp, ?_⟩
+      rw [if_pos hle, hbn]
+      simp only [if_neg hid, if_neg hx0, hp, if_neg hpn]
+    · refine ⟨old, Or.inr (by omega), fun hc => absurd hc hle, ?_⟩
+      rw [if_neg hle]
+      simp only [if_neg hx0, hp, if_neg hpn]
+  intro d
+  induction d with
+  | nil => intro hd; exact absurd hd (by simp [DescTo])
+  | cons x d ih =>
+    intro hd hst fuel old new br hbr hfuel
+    simp only [List.head?_cons, Option.some.injEq] at hbr
+    subst hbr
+    obtain ⟨hxs, hxm⟩ := hst x (by simp)
+    cases d with
+    | nil =>
+      obtain ⟨hp, hn⟩ := hd
+      cases fuel with
+      | zero => simp at hfuel
+      | succ fuel =>
+        obtain ⟨old', _, ho2, heq⟩ := stepDown fuel old new x S hxs hxm (by rw [hp]; exact hS.2) hn
+        cases fuel with
+        | zero => simp at hfuel
+        | succ fuel =>
+          refine ⟨old', ?_⟩
+          rw [heq, atRoot fuel old' (new ++ [x]) (ho2 (by omega)) (by simp)]
+    | cons y r =>
+      obtain ⟨hp, hn, hd'⟩ := hd
+      obtain ⟨hys, hym⟩ := hst y (by simp)
+      cases fuel with
+      | zero => simp at hfuel
+      | succ fuel =>
+        obtain ⟨old', _, _, heq⟩ := stepDown fuel old new x y hxs hxm (by rw [hp]; exact hys) hn
+        obtain ⟨old'', hres⟩ := ih hd' (fun z hz => hst z (by simp [hz])) fuel old' (new ++ [x]) y rfl
+          (by simp at hfuel ⊢; omega)
+        refine ⟨old'', ?_⟩
+        rw [heq, hres]
+        simp
+
+/-- **Whenever a strictly higher branch that leaves the main chain at or above the last irreversible block is fully
+stored and executes block by block, a reorganisation to its top is carried out**: the best block becomes that top, the
+state root is the root reached by executing the branch from the fork point, and the invariant holds again. -/
+theorem reorg_switches (hE : ExecLaw exec txsOf) (hU : UKeyed U) {N : Node} (h : Inv exec txsOf U g N) {S top : Block}
+    {l : List Block} (hS : onMain N S) (hSlt : S.no < N.latest) (hlib : N.lib ≤ S.no)
+    (hasc : Asc S l) (hne : l ≠ []) (htop : l.getLastD S = top)
+    (hst : ∀ x ∈ l, N.blocks x.id = some x ∧ ¬ onMain N x) (hgt : N.latest < top.no)
+    (hea : ExecAsc exec S l) (hc : ∀ x ∈ l, x.consOk = true) :
+    ∃ N', Aergo.Chain.reorg exec N top = (.done, N') ∧ N'.best = top ∧ N'.sdbRoot = top.claimed ∧
+      N'.latest = top.no ∧ Inv exec txsOf U g N' := by
+  have hd := asc_reverse_descTo l S hasc hne
+  have hhead : l.reverse.head? = some top := by
+    rw [← htop]
+    cases hl : l.reverse with
+    | nil => simp at hl; exact absurd hl hne
+    | cons a r =>
+      have : l = (a :: r).reverse := by rw [← hl]; simp
+      subst this; simp
+  have hlen : l.reverse.length + 1 ≤ top.no + 1 := by
+    have := (asc_len l S hasc).2; rw [htop] at this; simp; omega
+  obtain ⟨old', hg⟩ := gatherLoop_total h hS hSlt l.reverse hd
+    (fun x hx => hst x (List.mem_reverse.mp hx)) (top.no + 1) [] [] top hhead hlen
+  have hg' : gather N top = some ⟨S, l.reverse, old'⟩ := by simpa [gather] using hg
+  have htopst : N.blocks top.id = some top := by
+    have : top ∈ l.reverse := by
+      cases hl : l.reverse with
+      | nil => rw [hl] at hhead; cases hhead
+      | cons a r => rw [hl] at hhead; simp only [List.head?_cons, Option.some.injEq] at hhead; subst hhead; simp
+    exact (hst top (List.mem_reverse.mp this)).1
+  have hdone := reorg_complete (exec := exec) hg' (by simpa using hlib) hgt (by simpa using hea)
+    (fun x hx => hc x (List.mem_reverse.mp hx))
+  have hI := Inv.reorg hE hU h htopst hgt
+  generalize hr : Aergo.Chain.reorg exec N top = rr at hdone hI
+  obtain ⟨res, N'⟩ := rr
+  simp only at hdone hI
+  subst hdone
+  obtain ⟨gt, _, _, _, _, _, b1, b2, b3, _⟩ := reorg_done hU h htopst hgt hr
+  exact ⟨N', rfl, b1, b3, b2, hI⟩
 
 end
 
